@@ -6,6 +6,8 @@
  * yield inside so overlaps are visible).  Scripts are deadlock-free as long as every
  * acquisition is followed by `u` before the next acquisition (the generator guarantees it;
  * an acquisition op issued while holding is ignored here as a safety net). */
+/* crowds: more than 1024 fibers waiting for one unlock (batch limits, field widths) */
+#define VH_MAXF 1300
 #include "rtcommon.h"
 #include "fiber_rwlock.h"
 
